@@ -74,17 +74,21 @@ type lstate struct {
 	relMay  set
 	relMust set
 	defers  []deferred
+	nilv    map[types.Object]bool // error variables known to be nil here
 }
 
 func newState() lstate {
-	return lstate{may: map[string]held{}, must: set{}, relMay: set{}, relMust: set{}}
+	return lstate{may: map[string]held{}, must: set{}, relMay: set{}, relMust: set{}, nilv: map[types.Object]bool{}}
 }
 func deadState() lstate { s := newState(); s.dead = true; return s }
 
 func (s lstate) clone() lstate {
-	r := lstate{dead: s.dead, may: map[string]held{}, must: s.must.copy(), relMay: s.relMay.copy(), relMust: s.relMust.copy()}
+	r := lstate{dead: s.dead, may: map[string]held{}, must: s.must.copy(), relMay: s.relMay.copy(), relMust: s.relMust.copy(), nilv: map[types.Object]bool{}}
 	for k, v := range s.may {
 		r.may[k] = v
+	}
+	for k := range s.nilv {
+		r.nilv[k] = true
 	}
 	r.defers = append([]deferred(nil), s.defers...)
 	return r
@@ -128,6 +132,11 @@ func join(a, b lstate) lstate {
 			r.relMust[k] = true
 		}
 	}
+	for k := range a.nilv {
+		if b.nilv[k] {
+			r.nilv[k] = true
+		}
+	}
 	// defers: union, sure only when registered on both paths
 	idx := map[*ast.DeferStmt]int{}
 	for _, d := range a.defers {
@@ -161,6 +170,14 @@ func stateEq(a, b lstate) bool {
 	}
 	for k, v := range a.may {
 		if w, ok := b.may[k]; !ok || w.deferRel != v.deferRel {
+			return false
+		}
+	}
+	if len(a.nilv) != len(b.nilv) {
+		return false
+	}
+	for k := range a.nilv {
+		if !b.nilv[k] {
 			return false
 		}
 	}
@@ -280,7 +297,8 @@ type Func struct {
 
 	events    []event
 	sumAll    summary
-	sumNormal summary // exits that are not inside `if err != nil` of the last (error) result
+	sumNormal summary // exits where the last (error) result is nil or unknown
+	sumErr    summary // exits where the last (error) result is non-nil or unknown
 
 	// interprocedural results
 	entryMay  map[string]*witness
@@ -310,6 +328,9 @@ type walker struct {
 	info       *types.Info
 	exitsAll   []lstate
 	exitsNorm  []lstate
+	exitsErr   []lstate
+	closureAsg map[types.Object]bool
+	errMode    bool
 	targets    []target
 	errStack   []errCtx
 	mute       int
@@ -329,33 +350,57 @@ func (w *walker) record(e event) {
 
 // walkFunc runs the local analysis of f; returns true when its summaries changed.
 func (a *analysis) walkFunc(f *Func) bool {
-	w := &walker{a: a, f: f, info: f.pkg.Info}
+	w := &walker{a: a, f: f, info: f.pkg.Info, closureAsg: map[types.Object]bool{}}
+	// variables assigned inside nested function literals: no nil-ness facts for them
+	ast.Inspect(f.body, func(n ast.Node) bool {
+		if lit, ok := n.(*ast.FuncLit); ok && lit != f.lit {
+			ast.Inspect(lit.Body, func(m ast.Node) bool {
+				if as, ok := m.(*ast.AssignStmt); ok {
+					for _, l := range as.Lhs {
+						if id, ok := l.(*ast.Ident); ok {
+							if o := w.info.ObjectOf(id); o != nil {
+								w.closureAsg[o] = true
+							}
+						}
+					}
+				}
+				return true
+			})
+			return false
+		}
+		return true
+	})
 	f.events = nil
 	end := w.block(f.body, newState())
 	if !end.dead {
-		w.doReturn(end, f.body.Rbrace, false)
+		w.doReturn(end, f.body.Rbrace, 0)
 	}
-	all, norm := deadState(), deadState()
+	all, norm, errs := deadState(), deadState(), deadState()
 	for _, s := range w.exitsAll {
 		all = join(all, s)
 	}
 	for _, s := range w.exitsNorm {
 		norm = join(norm, s)
 	}
-	sa, sn := sumOf(all), sumOf(norm)
+	for _, s := range w.exitsErr {
+		errs = join(errs, s)
+	}
+	sa, sn, se := sumOf(all), sumOf(norm), sumOf(errs)
 	if !sa.valid { // never returns (infinite loop, panics): no net effect visible to callers
 		sa = summary{valid: true, acqMay: set{}, acqMust: set{}, relMay: set{}, relMust: set{}}
 	}
 	if !sn.valid {
 		sn = sa
 	}
-	changed := !sumEq(sa, f.sumAll) || !sumEq(sn, f.sumNormal)
-	f.sumAll, f.sumNormal = sa, sn
+	// se may stay invalid: the function never returns a non-nil error
+	changed := !sumEq(sa, f.sumAll) || !sumEq(sn, f.sumNormal) || !sumEq(se, f.sumErr)
+	f.sumAll, f.sumNormal, f.sumErr = sa, sn, se
 	return changed
 }
 
 // doReturn: run the deferred calls registered in st (LIFO) and record the exit state.
-func (w *walker) doReturn(st lstate, pos token.Pos, isErrExit bool) {
+// kind: 0 = nothing known about the error result, 1 = surely non-nil, 2 = surely nil
+func (w *walker) doReturn(st lstate, pos token.Pos, kind int) {
 	st = st.clone()
 	ds := st.defers
 	st.defers = nil
@@ -387,8 +432,11 @@ func (w *walker) doReturn(st lstate, pos token.Pos, isErrExit bool) {
 		st.defers = nil
 	}
 	w.exitsAll = append(w.exitsAll, st)
-	if !isErrExit {
+	if kind != 1 {
 		w.exitsNorm = append(w.exitsNorm, st)
+	}
+	if kind != 2 {
+		w.exitsErr = append(w.exitsErr, st)
 	}
 }
 
@@ -459,15 +507,19 @@ func (w *walker) stmts(list []ast.Stmt, st lstate) lstate {
 	for i := 0; i < len(list); i++ {
 		if i+1 < len(list) {
 			if call := w.errIdiom(list[i], list[i+1]); call != nil {
-				stAll := w.stmt(list[i], st.clone())
+				w.normalCall, w.errMode = call, true
+				stErr := w.stmt(list[i], st.clone())
 				w.mute++
-				w.normalCall = call
+				w.errMode = false
 				stNorm := w.stmt(list[i], st.clone())
 				w.normalCall = nil
 				w.mute--
 				is := list[i+1].(*ast.IfStmt)
+				if o := w.errVarOfCond(is.Cond, token.NEQ); o != nil {
+					stNorm.nilv[o] = true
+				}
 				w.pushErr(is)
-				thenOut := w.block(is.Body, stAll)
+				thenOut := w.block(is.Body, stErr)
 				w.popErr(is)
 				st = join(thenOut, stNorm)
 				i++
@@ -522,30 +574,56 @@ func (w *walker) popErr(*ast.IfStmt) { w.errStack = w.errStack[:len(w.errStack)-
 
 // isErrReturn: the return statement returns (in last position) a variable that an enclosing
 // `if v != nil` (whose body never assigns v) has just tested.
-func (w *walker) isErrReturn(r *ast.ReturnStmt) bool {
+func (w *walker) returnKind(r *ast.ReturnStmt, st lstate) int {
 	var obj types.Object
 	res := w.f.sig.Results()
 	if res.Len() == 0 || !isErrorType(res.At(res.Len()-1).Type()) {
-		return false
+		return 0
 	}
 	if len(r.Results) == 0 {
 		obj = res.At(res.Len() - 1)
 		if obj.Name() == "" || obj.Name() == "_" {
-			return false
+			return 0
 		}
 	} else {
 		id, ok := r.Results[len(r.Results)-1].(*ast.Ident)
 		if !ok {
-			return false
+			return 0
 		}
 		obj = w.info.ObjectOf(id)
+		if obj == types.Universe.Lookup("nil") {
+			return 2
+		}
+	}
+	if obj == nil || w.closureAsg[obj] {
+		return 0
 	}
 	for _, e := range w.errStack {
 		if e.obj != nil && e.obj == obj && e.clean {
-			return true
+			return 1
 		}
 	}
-	return false
+	if st.nilv[obj] {
+		return 2
+	}
+	return 0
+}
+
+// errVarOfCond: cond is `v != nil` (neq) or `v == nil` with v an error variable
+func (w *walker) errVarOfCond(cond ast.Expr, op token.Token) types.Object {
+	x, ok := isNilCmp(cond, op)
+	if !ok {
+		return nil
+	}
+	id, ok := x.(*ast.Ident)
+	if !ok {
+		return nil
+	}
+	obj := w.info.ObjectOf(id)
+	if obj == nil || !isErrorType(obj.Type()) || w.closureAsg[obj] {
+		return nil
+	}
+	return obj
 }
 
 func (w *walker) stmt(s ast.Stmt, st lstate) lstate {
@@ -569,6 +647,11 @@ func (w *walker) stmt(s ast.Stmt, st lstate) lstate {
 		}
 		for _, e := range x.Lhs {
 			st = w.expr(e, st)
+			if id, ok := e.(*ast.Ident); ok {
+				if o := w.info.ObjectOf(id); o != nil {
+					delete(st.nilv, o)
+				}
+			}
 		}
 		return st
 	case *ast.DeclStmt:
@@ -610,7 +693,7 @@ func (w *walker) stmt(s ast.Stmt, st lstate) lstate {
 		for _, e := range x.Results {
 			st = w.expr(e, st)
 		}
-		w.doReturn(st, x.Pos(), w.isErrReturn(x))
+		w.doReturn(st, x.Pos(), w.returnKind(x, st))
 		return deadState()
 	case *ast.BranchStmt:
 		if x.Label != nil {
@@ -640,14 +723,21 @@ func (w *walker) stmt(s ast.Stmt, st lstate) lstate {
 	case *ast.IfStmt:
 		st = w.stmt(x.Init, st)
 		st = w.expr(x.Cond, st)
+		thenIn, elseIn := st.clone(), st.clone()
+		if o := w.errVarOfCond(x.Cond, token.NEQ); o != nil {
+			elseIn.nilv[o] = true
+		}
+		if o := w.errVarOfCond(x.Cond, token.EQL); o != nil {
+			thenIn.nilv[o] = true
+		}
 		w.pushErr(x)
-		thenOut := w.block(x.Body, st.clone())
+		thenOut := w.block(x.Body, thenIn)
 		w.popErr(x)
 		var elseOut lstate
 		if x.Else != nil {
-			elseOut = w.stmt(x.Else, st.clone())
+			elseOut = w.stmt(x.Else, elseIn)
 		} else {
-			elseOut = st
+			elseOut = elseIn
 		}
 		return join(thenOut, elseOut)
 	case *ast.SwitchStmt:
@@ -972,6 +1062,7 @@ func (w *walker) call(c *ast.CallExpr, st lstate, viaDefer bool, _ bool) lstate 
 		return st
 	}
 	callees, dyn, ext := a.resolve(w, c)
+	viaIface := a.viaIface
 	switch {
 	case len(callees) > 0:
 		w.record(event{kind: evCall, pos: c.Pos(), snap: snap(st), callees: callees, call: c, viaDef: viaDefer, desc: exprString(c.Fun)})
@@ -979,11 +1070,21 @@ func (w *walker) call(c *ast.CallExpr, st lstate, viaDefer bool, _ bool) lstate 
 		for _, g := range callees {
 			s := g.sumAll
 			if w.normalCall == c {
-				s = g.sumNormal
+				if w.errMode {
+					s = g.sumErr
+					if !s.valid && viaIface {
+						s = g.sumAll // implementations outside the analysed packages may return errors
+					}
+				} else {
+					s = g.sumNormal
+				}
 			}
 			if s.valid {
 				sums = append(sums, s)
 			}
+		}
+		if w.normalCall == c && len(sums) == 0 && len(callees) > 0 {
+			return deadState() // no callee can return in this mode (e.g. never returns an error)
 		}
 		st = applySummary(st, sums, c.Pos())
 	case dyn:
